@@ -301,13 +301,31 @@ def pause(job, prop, case=None):
                 out['cnt'].get('c11_pause_after_event_step', 0) + 1
         wit = {'case': case, 'pause_schedule': sch}
         got = canonical(res)
-        d = first_diff(ref, got)
+        d = first_diff(ref, got) if prop == 'C11' else None
         if d is not None:
             dup = (d.get('table') == 'events')
             out['viol'].append({'prop': 'C11', 'clause': 'paused_run_differs',
                                 'kind': ('event_log' if dup else str(d.get('table'))),
                                 'paused': True, 'schedule': sch, 'diff': d, 'T': T,
                                 'history': wit})
+        if prop == 'C13':
+            # the event-log oracle itself on the paused run
+            from . import oracles
+            n0 = len(tr.viol)
+            oracles.c13(case, tr, res)
+            for v in tr.viol[n0:]:
+                if v['prop'] == 'C13':
+                    v = dict(v)
+                    v['paused'] = True
+                    v['schedule'] = sch
+                    v['history'] = wit
+                    out['viol'].append(v)
+            out['cnt']['c13_observations'] = out['cnt'].get('c13_observations', 0) + \
+                tr.cnt.get('c13_observations', 0)
+            out['cnt']['c13_entries_checked'] = out['cnt'].get('c13_entries_checked', 0) + \
+                tr.cnt.get('c13_entries_checked', 0)
+            out['cnt']['c13_paused_runs'] = out['cnt'].get('c13_paused_runs', 0) + 1
+            continue
         tj = _traj(tr)
         if tj[:T + 1] != traj0[:T + 1]:
             i = next((i for i, (a, b) in enumerate(zip(traj0, tj)) if a != b),
